@@ -22,6 +22,7 @@ import Golib.Logger.Rotate
 import Golib.Logger.CalRealLemmas
 import Golib.Logger.CacheHMap
 import Golib.Logger.Concurrent
+import Golib.Logger.HistoryLemmas
 
 namespace C17
 open Logger
@@ -375,6 +376,77 @@ theorem rate_limit_any_history (cal : Cal) (st0 : St) (ops : List Op) (t : Int) 
         st.conf.interval > 0 ∧ t < (HMap.AL.get dict i).getD 0 + st.conf.interval * 1000) ∧
     dict = ((puts cal st0 ops).foldl (fun (s : HMap.S Bytes Int) e => (HMap.S.put slDesc s .last e.1 e.2).1) ⟨[], cacheMax⟩).ents := by
   exact ⟨suppressed_iff cal st0 ops t m id msg h0, (dictAfter_is_hmap (puts cal st0 ops) [] List.nodup_nil).1⟩
+
+/-- the same, as the statement reads it: after ANY history, a rate-limited call that passes the
+    gate under a positive interval is written iff the table does not hold its id, or holds it
+    with a time at least one interval ago -/
+theorem rate_written_iff (cal : Cal) (st0 : St) (ops : List Op) (t : Int) (m : Meth) (id msg i : Bytes)
+    (h0 : st0.cache = [])
+    (hp : m.passes (run cal st0 ops).conf.level = true)
+    (hid : m.rateId id (if m.ln then msg ++ [cNl] else msg) = some i)
+    (hs : (run cal st0 ops).conf.interval > 0)
+    (hclock : (run cal st0 ops).conf.interval * 1000 ≤ t) :
+    let dict := dictAfter [] (puts cal st0 ops)
+    (logDecide t m id msg (run cal st0 ops)).1 = .written ↔
+      HMap.AL.get dict i = none ∨ ∃ T, HMap.AL.get dict i = some T ∧ T + (run cal st0 ops).conf.interval * 1000 ≤ t :=
+  written_iff cal st0 ops t m id msg i h0 hp hid hs hclock
+
+/-- the table over histories of `Put`s: (1) pairwise distinct new ids ⇒ the table holds exactly
+    the most recent 1000 entries (C09's closed form); (2) so 1000 new ids forget everything held
+    before; (3) and not earlier: an id with `y` younger entries survives further `Put`s of other
+    ids while `y` + their number stays below 1000 -/
+theorem table_over_histories :
+    (∀ (c : Cache) (l : List (Bytes × Int)), (HMap.AL.keys (c ++ l)).Nodup → (∀ e ∈ l, e.1 ≠ []) → c.length ≤ cacheMax →
+        dictAfter c l = HMap.AL.keepLast cacheMax (c ++ l)) ∧
+    (∀ (c : Cache) (l : List (Bytes × Int)), (HMap.AL.keys (c ++ l)).Nodup → (∀ e ∈ l, e.1 ≠ []) → c.length ≤ cacheMax →
+        cacheMax ≤ l.length → ∀ k ∈ HMap.AL.keys c, HMap.AL.get (dictAfter c l) k = none) ∧
+    (∀ (pre young : Cache) (i : Bytes) (v : Int) (ps : List (Bytes × Int)),
+        (HMap.AL.keys (pre ++ (i, v) :: young)).Nodup → i ≠ [] → (∀ e ∈ ps, e.1 ≠ i) →
+        (pre ++ (i, v) :: young).length ≤ cacheMax → young.length + ps.length < cacheMax →
+        HMap.AL.get (dictAfter (pre ++ (i, v) :: young) ps) i = some v) :=
+  ⟨table_after_new_ids, fun c l hn hne hb hl k hk => ids_forgotten c l hn hne hb hl k hk,
+   fun pre young i v ps hn hi hps hlen hroom => id_survives pre young i v ps hn hi hps hlen hroom⟩
+
+/-! ## whole histories with an arbitrary directory -/
+
+/-- over ANY history of a new logger, whatever else lies in the directory: a file that does not
+    carry the prefix `logID-` is still there at the end with exactly the content it had -/
+theorem foreign_files_untouched (cal : Cal) (t0 : Int) (conf : Conf) (home : Bytes) (dir : Dir) (ops : List Op)
+    (n : Bytes) (f : File) (h : (n, f) ∈ dir) (hp : ¬ (conf.logID ++ [cDash]) <+: n) :
+    (n, f) ∈ (run cal (St.new cal t0 conf home dir) ops).dir := by
+  have hi := new_inv cal t0 conf home dir
+  have hconf : (St.new cal t0 conf home dir).conf = conf := by
+    unfold St.new; simp only []; rw [(openFile_frame cal t0 _).1]
+  have hmem : (n, f) ∈ (St.new cal t0 conf home dir).dir := by
+    unfold St.new; simp only []
+    exact openFile_foreign cal t0 ⟨conf, home, [], none, t0, unit t0, conf.rotation, dir⟩ n f h hp
+  exact run_foreign cal _ ops hi n f hmem (by rw [hconf]; exact hp)
+
+/-- everything any history removes carries the prefix and an 8-digit date part -/
+theorem history_prunes_only_own (cal : Cal) (st : St) (ops : List Op) (n : Bytes) (h : n ∈ removedBy cal st ops) :
+    (st.conf.logID ++ [cDash]) <+: n ∧ ∃ d, datePart n = some d ∧ d.length = 8 ∧ ∀ b ∈ d, isDigit b = true :=
+  removed_are_own_dated cal st ops n h
+
+/-- rotation at every cycle of a history: whatever came before, after a cycle at `t` and any
+    calls, the open file is the one named for the day of `t` (with the log id and object name the
+    logger was created with) and it has received exactly those calls' lines, in order -/
+theorem rotation_in_history (cal : Cal) (st0 : St) (hi : st0.Inv cal) (pre calls : List Op) (t : Int)
+    (hc : ∀ o ∈ calls, o.isCall = true) :
+    let stp := run cal st0 pre
+    let st1 := (process cal t stp).1
+    let name := fileName cal st0.conf.logID st0.conf.oname stp.conf.rotation (unit t)
+    run cal st0 (pre ++ [.proc t] ++ calls) = run cal st1 calls ∧
+    (run cal st1 calls).cur = some name ∧ (run cal st1 calls).dir = dirAppend st1.dir name (emits cal st1 calls) := by
+  intro stp st1 name
+  have hinv := run_inv cal st0 pre hi
+  obtain ⟨h1, h2, h3⟩ := rotation cal t (run cal st0 pre) hinv calls hc
+  obtain ⟨hl, ho⟩ := run_conf_names cal st0 pre
+  refine ⟨?_, ?_, ?_⟩
+  · rw [run_append, run_append]; rfl
+  · show (run cal (process cal t (run cal st0 pre)).1 calls).cur = _
+    rw [h2, hl, ho]
+  · show (run cal (process cal t (run cal st0 pre)).1 calls).dir = _
+    rw [h3, hl, ho]
 
 /-! ## concurrent writers (atomic-write action model, OS atomicity as an explicit field) -/
 
